@@ -312,8 +312,69 @@ func c04Arms(c *Ctx, r *Report, a *Anchors) {
 	r.floor("C04.ARMS", "values reaching the return of the argument substitution", n, 5)
 }
 
+// varBinder finds the function that builds the operation's variable map (a map made there and
+// filled under VarDef.Name keys): the entry point itself, or an in-package helper it calls directly.
+// For a helper the call is returned too.
+func varBinder(c *Ctx, entry *ssa.Function) (*ssa.Function, *ssa.Call) {
+	builds := func(fn *ssa.Function) bool {
+		for _, b := range fn.Blocks {
+			for _, in := range b.Instrs {
+				if mu, ok := in.(*ssa.MapUpdate); ok && isStrIfaceMap(mu.Map.Type()) {
+					if _, isMM := mu.Map.(*ssa.MakeMap); isMM {
+						if _, o, f, ok := loadOfField(mu.Key); ok && o == "VarDef" && f == "Name" {
+							return true
+						}
+					}
+				}
+			}
+		}
+		return false
+	}
+	if builds(entry) {
+		return entry, nil
+	}
+	for _, ci := range callsIn(entry) {
+		call, ok := ci.(*ssa.Call)
+		if !ok {
+			continue
+		}
+		if cal := call.Call.StaticCallee(); cal != nil && c.inPkg(cal) && len(cal.Blocks) > 0 && builds(cal) {
+			return cal, call
+		}
+	}
+	return entry, nil
+}
+
 func c04Vars(c *Ctx, r *Report, a *Anchors) {
-	fn := a.entry
+	fn, via := varBinder(c, a.entry)
+	r.fnSeen(fnName(fn))
+	if via != nil {
+		// the helper's error stops the request before any resolver runs
+		reach := c.resolverReaching()
+		errv := extractOf(via, via.Call.Signature().Results().Len()-1)
+		k := 0
+		for _, ci := range callsIn(a.entry) {
+			cal := ci.Common().StaticCallee()
+			if cal == nil || !reach[cal] {
+				continue
+			}
+			k++
+			ok := errv != nil && hasGuard(ci.Block(), func(g guard) bool {
+				v, eq, isN := nilCmp(g.cond)
+				if !isN || eq != g.val {
+					return false
+				}
+				ls, _ := phiLeaves(v)
+				for _, l := range ls {
+					if l.val == errv {
+						return true
+					}
+				}
+				return v == errv
+			})
+			r.check("C04.VARS", fmt.Sprintf("%s: resolver-reaching call #%d only after the variable binder reported no error", fnName(a.entry), k), ci.Pos(), ok, "a variable that cannot be coerced must stop the request before any resolver runs")
+		}
+	}
 	var rawVars *ssa.Parameter
 	for _, p := range fn.Params {
 		if isStrIfaceMap(p.Type()) {
